@@ -294,7 +294,7 @@ def main(chk):
             chk.violation('C17:compile:%s' % tag, 'futex harness does not build: %s' % r.err[-1500:], {'module.wasm': b})
             continue
         exes[tag] = (exe, guard)
-    nh = 300 if quick else 6000
+    nh = 1000 if quick else 6000
     jobs = []
     for k in range(nh):
         r0 = env.rng('c17', k)
